@@ -564,6 +564,12 @@ pub struct C11Case {
     /// add a later stage with a single group
     #[serde(default)]
     pub join: bool,
+    /// running-time hints: 0 = one long group + short ones, 1 = all VeryShort, 2 = all Average
+    #[serde(default)]
+    pub hints: u8,
+    /// call dispatch from a worker of a different (1-thread) pool
+    #[serde(default)]
+    pub from_foreign_pool: bool,
 }
 
 pub struct C11;
@@ -578,7 +584,17 @@ fn c11_plan(case: &C11Case) -> Plan {
             deps: vec![],
             reads: vec![],
             writes: vec![],
-            rt: if i == 0 { 5 } else { 1 },
+            rt: match case.hints % 3 {
+                0 => {
+                    if i == 0 {
+                        5
+                    } else {
+                        1
+                    }
+                }
+                1 => 1,
+                _ => 3,
+            },
             kind: Kind::Dyn,
             extra_deps: vec![],
         })
@@ -645,6 +661,8 @@ impl Prop for C11 {
             mode: src.pick(4) as u8,
             tail: src.pick(6) as u8,
             join: src.chance(8, 16),
+            hints: src.pick(3) as u8,
+            from_foreign_pool: src.chance(4, 16),
         }
     }
     fn check(&self, case: &C11Case, lane: usize, st: &mut Stats) -> Result<(), Fail> {
@@ -652,6 +670,10 @@ impl Prop for C11 {
         let threads = (w + case.extra_threads as usize).min(16);
         let plan = c11_plan(case);
         st.class(&format!("mode_{}", case.mode));
+        st.class(&format!("hints_{}", case.hints % 3));
+        if case.from_foreign_pool && case.mode != 3 {
+            st.class("dispatched_from_foreign_pool_worker");
+        }
         st.class(&format!("width_{}", w));
         // the rendezvous members must be the first systems of the groups of one stage: check that
         // on the real layout of the (un-batched) plan; otherwise the case says nothing
@@ -749,10 +771,23 @@ fn c11_attempt(
                 d.wait();
             }
         } else {
-            let mut d = builder.build();
             let world = fresh_world();
-            for _ in 0..dispatches {
-                d.dispatch(&world);
+            if case.from_foreign_pool {
+                // the caller is a worker of another, smaller pool: the dispatcher's own pool still
+                // has the idle threads (a Dispatcher is not Send: use its sendable form)
+                let mut sd = match builder.build().try_into_sendable() {
+                    Ok(sd) => sd,
+                    Err(_) => panic!("harness: plan without thread-local systems is not sendable"),
+                };
+                let foreign = pool(lane + 32, 1);
+                for _ in 0..dispatches {
+                    foreign.install(|| sd.dispatch(&world));
+                }
+            } else {
+                let mut d = builder.build();
+                for _ in 0..dispatches {
+                    d.dispatch(&world);
+                }
             }
         }
     }));
